@@ -12,7 +12,7 @@ KANI_ENV = {
     "CARGO_TERM_COLOR": "never",
 }
 
-CHECK_RE = re.compile(r"^Check (\d+): (\S+)\n\s+- Status: (\S+)\n\s+- Description: \"(.*)\"\n(?:\s+- Location: (.*)\n)?", re.M)
+CHECK_RE = re.compile(r"^Check (\d+): (.+)\n\s+- Status: (\S+)\n\s+- Description: \"(.*)\"\n(?:\s+- Location: (.*)\n)?", re.M)
 
 
 class HarnessResult:
